@@ -1113,3 +1113,39 @@ pub fn mac_new_configuration(files: &[File], _n: &[String], reg: &mut Registry, 
     emit_fn(out, lean, &params, &Ty::Named("Configuration".into()), &seq);
     Ok(())
 }
+
+/// `DynamicChannelPlan::process_join_accept`: the data-rate range `Channel::new(value, lo, hi)` gives
+/// a channel created from a CFList frequency
+pub fn cflist_channel(files: &[File], _n: &[String], reg: &mut Registry, out: &mut String) -> Res<()> {
+    use syn::visit::Visit;
+    let (_, block, _) = find_method(files, Some("DynamicChannelPlan"), Some("RegionHandler"), "process_join_accept").ok_or("DynamicChannelPlan::process_join_accept not found")?;
+    struct V(Vec<ExprCall>);
+    impl<'ast> Visit<'ast> for V {
+        fn visit_expr_call(&mut self, c: &'ast ExprCall) {
+            if let Some((segs, args)) = call_parts(&Expr::Call(c.clone())) {
+                if segs.len() >= 2 && segs[segs.len() - 2] == "Channel" && segs[segs.len() - 1] == "new" && args.len() == 3 {
+                    self.0.push(c.clone());
+                }
+            }
+            syn::visit::visit_expr_call(self, c);
+        }
+    }
+    let mut v = V(vec![]);
+    v.visit_block(block);
+    let [c] = v.0.as_slice() else { return Err(format!("process_join_accept: expected exactly one Channel::new(..), found {}", v.0.len())) };
+    let (lo, hi) = {
+        let mut tr = new_tr(reg, None, "");
+        let mut env = HashMap::new();
+        let mut st = vec![];
+        let (lo, tlo) = tr.ex(&c.args[1], &mut env, &mut st, Some(Ty::Named("DR".into()))).map_err(|e| format!("process_join_accept: {}", e))?;
+        let (hi, thi) = tr.ex(&c.args[2], &mut env, &mut st, Some(Ty::Named("DR".into()))).map_err(|e| format!("process_join_accept: {}", e))?;
+        if !st.is_empty() || tlo != Ty::Named("DR".into()) || thi != Ty::Named("DR".into()) {
+            return Err("process_join_accept: the data-rate bounds of the CFList channel are not DR constants".into());
+        }
+        (lo, hi)
+    };
+    writeln!(out, "/-- `DynamicChannelPlan::process_join_accept`: a CFList frequency becomes `Channel::new(value, {}, {})` -/", lo, hi).unwrap();
+    writeln!(out, "def DynamicChannelPlan.process_join_accept.cflist_dr_min : DR := {}\n", lo).unwrap();
+    writeln!(out, "def DynamicChannelPlan.process_join_accept.cflist_dr_max : DR := {}\n", hi).unwrap();
+    Ok(())
+}
